@@ -13,5 +13,6 @@ let () =
   | "gen" -> D_gen.run ()
   | "upd" -> D_upd.run ()
   | "yaml" -> D_yaml.run ()
+  | "render" -> D_render.run ()
   | "validate" -> D_exec.run_validate ()
   | x -> prerr_endline ("unknown " ^ x); exit 2
